@@ -36,3 +36,11 @@ Theorem C04_channel_close_shape : skel_tunnelChannel_close =
   ["call tearDown"; "call mu.Lock"; "defer call mu.Unlock"; "defer call cancel"; "set finished"; "set err"; "set streams"].
 Proof. exact tunnelChannel_close_shape. Qed.
 Print Assumptions C04_channel_close_shape.
+
+(* Stop of a reverse-tunnel server ends every tunnel it still tracks, also after a GracefulStop
+   (the guards of the state machine are regenerated from the source: theories/RevServer.v) *)
+From GT Require Import RevServer.
+Theorem C04_stop_ends_every_tracked_tunnel : forall s, rs_state s <> Closed ->
+  rs_open (rs_step s OStop) = [] /\ forall t, In t (rs_open s) -> In t (rs_told (rs_step s OStop)).
+Proof. exact stop_ends_every_tracked_tunnel. Qed.
+Print Assumptions C04_stop_ends_every_tracked_tunnel.
